@@ -2,6 +2,8 @@ SPECIFICATION Spec
 CONSTANTS
   Counts <- MCCountsT
   StrLens <- MCStrLensT
+  TeamCounts <- MCTeamsT
+  PartCounts <- MCPartsT
   Emit = TRUE
 INVARIANTS HasEntry
 CHECK_DEADLOCK FALSE
